@@ -107,8 +107,24 @@ def showInit : Except Err (List Ens) → String
   | .ok es => showList showEns es
   | .error e => showErr e
 
+def showFile : Except Err (Option Cfg) → String
+  | .ok none => "none"
+  | .ok (some c) => "ok " ++ showNorm c
+  | .error e => showErr e
+
+/-- `restart <cstep> <restarted_from : - | int> <steps> <paths present : 0|1> <cfg>` -/
+def handleRestart (toks : List String) : String :=
+  match toks with
+  | cs :: rf :: st :: pp :: rest =>
+    match parseInt? cs, optTok parseInt? rf, parseInt? st, parseBool? pp, parseCfg rest with
+    | some cs, some rf, some st, some pp, some c =>
+      showFile (setupFile c (some { cstep := cs, restartedFrom := rf, steps := st, pathsPresent := pp }))
+    | _, _, _, _, _ => "bad-op"
+  | _ => "bad-op"
+
 def handle (toks : List String) : String :=
   match toks with
+  | "restart" :: rest => handleRestart rest
   | op :: rest =>
     match parseCfg rest with
     | none => "bad-op"
